@@ -2,6 +2,7 @@
 C02 — enum conversions map each variant and payload field to its designated target.
 -/
 import O2oModel.Lemmas.Blocks
+import O2oModel.Lemmas.Lines
 namespace O2o
 
 /-- C02 (default arm): a variant without variant-level instruction, literal or pattern is mapped to the same-named
@@ -146,5 +147,15 @@ theorem C02_value_first_declared : ∀ (table : List (String × String)) (row : 
         · exact h'
       obtain ⟨v, hv, hn⟩ := C02_value_first_declared table row h'
       refine ⟨v, by simpa [firstArm, List.find?, he] using hv, fun hnd => hn (List.nodup_cons.mp (by simpa using hnd)).2⟩
+
+/-- C02-7 (payload positions): a payload line of a variant arm never depends on how many lines were written before it
+    (From: always; Into: the arm is one struct / tuple expression) — a member after a ghost payload member still reads
+    and writes its own binding `f<declaration index>` -/
+theorem C02_payload_line_ignores_line_count (f : Field) (ctx : ImplContext) (hint : TypeHint) (idx idx' : Nat)
+    (h : ctx.kind.cls = .from_ ∨ (ctx.kind.cls = .into ∧ ctx.hasPostInit = false)) :
+    renderStructLine f ctx hint idx none = renderStructLine f ctx hint idx' none := by
+  rcases h with h | ⟨h, hp⟩
+  · exact renderStructLine_from_ignores_counter f ctx hint idx idx' none h
+  · exact renderStructLine_into_ignores_counter f ctx hint idx idx' none h hp
 
 end O2o
